@@ -12,8 +12,9 @@ def sh(cmd, **k):
 ran = []
 sh("git checkout -- src")
 def rundemo():
-    r = sh(f"/venv/bin/python -m pytest -q -p no:cacheprovider {demo}", timeout=600)
-    if r.returncode == 5 or "demo.py" in (__import__("json").load(open(os.path.join(out, "meta.json"))).get("run_as_script") or ""):
+    script = "demo.py" in (json.load(open(os.path.join(out, "meta.json"))).get("run_as_script") or "")
+    r = None if script else sh(f"/venv/bin/python -m pytest -q -p no:cacheprovider {demo}", timeout=600)
+    if r is None or r.returncode == 5:
         r = sh(f"/venv/bin/python {demo}", timeout=600)
     return r
 r = rundemo(); ran.append(("clean demo", r.returncode)); clean_ok = r.returncode == 0
